@@ -287,3 +287,194 @@ Proof.
   rewrite code_random_weighted_sample by auto.
   destruct (random_weighted_sample rank q true ds) as [[r ds']|]; reflexivity.
 Qed.
+
+(* ---------- tournament_selection ---------- *)
+From TF Require Import RandomPrimsProofs RandomPrimsProofs2.
+Open Scope Z_scope.
+
+Lemma gatherQz_nonneg f t : Forall (fun v => 0 <= v) t -> gatherQz f t = gatherQ f t.
+Proof.
+  intro H. unfold gatherQz, gatherQ. apply map_ext_in. intros v Hv.
+  rewrite Forall_forall in H. apply getQ_nonneg. auto.
+Qed.
+
+Lemma tournament_loop fitness (tour : nat) (body : nat -> list Z -> M (list Z)) :
+  (tour <= length fitness)%nat ->
+  (forall j s ds, body j s ds =
+      bind (py_random_sample (zlen fitness) (Z.of_nat tour) false) (fun r_1 =>
+        ret (setA s (Z.of_nat j) (getZ r_1 (argmaxZ (gatherQz fitness r_1))))) ds) ->
+  forall (k i : nat) acc rest ds, valid_draws ds -> length acc = i -> length rest = k ->
+  for_idx k i body (acc ++ rest) ds
+  = match tournament_selection fitness tour k ds with
+    | Some (ws, ds') => Some (acc ++ ws, ds')
+    | None => None
+    end.
+Proof.
+  intros Ht Hb. induction k as [|k IH]; intros i acc rest ds Hv Ha Hr.
+  - destruct rest; [|discriminate]. reflexivity.
+  - cbn [for_idx tournament_selection]. unfold tournament_one.
+    unfold bind at 1. rewrite Hb. unfold bind at 1.
+    rewrite code_random_sample by (right; unfold zlen; lia).
+    unfold zlen. unfold bind at 1. unfold bind at 1.
+    destruct (random_sample (Z.of_nat (length fitness)) tour false ds) as [[t ds1]|] eqn:Ers; [|reflexivity].
+    destruct (random_sample_spec _ _ _ _ _ _ Hv Ers) as (Hlt & Hrange & _).
+    pose proof (random_sample_suffix _ _ _ _ _ _ Hv Ers) as Hv1.
+    unfold ret at 1. unfold ret at 1.
+    rewrite gatherQz_nonneg by (eapply Forall_impl; [|exact Hrange]; simpl; intros; lia).
+    unfold argmaxZ. rewrite getZ_nat.
+    destruct rest as [|z rest']; [discriminate|].
+    rewrite setA_nat, <- Ha, upd_app_r. cbn [upd].
+    set (w := nth (argmax (gatherQ fitness t)) t 0).
+    replace (acc ++ w :: rest') with ((acc ++ [w]) ++ rest') by now rewrite <- app_assoc.
+    rewrite (IH (Datatypes.S (length acc)) (acc ++ [w]) rest' ds1 Hv1);
+      [| rewrite app_length; simpl; lia | simpl in Hr; lia].
+    unfold bind, ret. destruct (tournament_selection fitness tour k ds1) as [[ws ds']|]; [|reflexivity].
+    now rewrite <- app_assoc.
+Qed.
+
+Theorem code_tournament_selection fitness rank (tour q : nat) ds :
+  valid_draws ds -> (tour <= length fitness)%nat ->
+  py_tournament_selection fitness rank (Z.of_nat tour) (Z.of_nat q) ds = tournament_selection fitness tour q ds.
+Proof.
+  intros Hv Ht. unfold py_tournament_selection. cbv zeta. unfold bind at 1. rewrite for_range_0, zerosZ_nat.
+  match goal with |- context [for_idx q 0 ?b _ ds] =>
+    pose proof (tournament_loop fitness tour b Ht (fun _ _ _ => eq_refl) q 0 [] (repeat 0 q) ds Hv eq_refl (repeat_length _ _)) as H end.
+  cbn [app] in H. rewrite H. destruct (tournament_selection fitness tour q ds) as [[r ds']|]; reflexivity.
+Qed.
+
+(* ---------- sattolo_shuffle ---------- *)
+Lemma for_down_sattolo : forall (i : nat) arr ds, valid_draws ds ->
+  for_down_nat i (Z.of_nat i) (fun i0 shuffled_arr =>
+      bind popU (fun r_1 =>
+        let j := Qfloor' (r_1 * ZtoQ i0)%Q in
+        let v_2 := getZ shuffled_arr j in
+        let v_3 := getZ shuffled_arr i0 in
+        let shuffled_arr := setA shuffled_arr i0 v_2 in
+        let shuffled_arr := setA shuffled_arr j v_3 in
+        ret shuffled_arr)) arr ds
+  = sattolo_loop 0 i arr ds.
+Proof.
+  induction i as [|i IH]; intros arr ds Hv; [reflexivity|].
+  cbn [for_down_nat sattolo_loop]. unfold bind at 1. unfold bind at 1. unfold bind at 2. unfold popU.
+  destruct ds as [|[u|m v|x] ds]; try reflexivity.
+  inversion Hv as [|? ? Hd Hv']; subst. cbn in Hd. destruct Hd as [Hu0 Hu1].
+  cbv zeta. unfold ret at 1.
+  assert (Hj : 0 <= Qfloor' (u * ZtoQ (Z.of_nat (Datatypes.S i)))).
+  { unfold ZtoQ. apply (Qfloor'_bounds u (Z.of_nat (Datatypes.S i)) Hu0 Hu1). lia. }
+  rewrite (getZ_nonneg _ _ Hj), getZ_nat, setA_nat, (setA_nonneg _ _ _ Hj).
+  replace (Z.of_nat (Datatypes.S i) - 1) with (Z.of_nat i) by lia.
+  rewrite IH by exact Hv'. unfold swap, ZtoQ. reflexivity.
+Qed.
+
+Theorem code_sattolo_shuffle arr ds : valid_draws ds ->
+  py_sattolo_shuffle arr ds = sattolo 0 arr ds.
+Proof.
+  intro Hv. unfold py_sattolo_shuffle, sattolo. cbv zeta. unfold bind at 1. unfold for_down.
+  assert (Hn : zlen arr - 1 - 0 = Z.of_nat (length arr - 1) /\ zlen arr - 1 = Z.of_nat (length arr - 1) \/ arr = []).
+  { destruct arr; [right; reflexivity|left]. unfold zlen. simpl length. lia. }
+  destruct Hn as [[H1 H2]| ->]; [|reflexivity].
+  rewrite H1, H2, Nat2Z.id. pose proof (for_down_sattolo (length arr - 1) arr ds Hv) as H.
+  cbv zeta in H. rewrite H. destruct (sattolo_loop 0 (length arr - 1) arr ds) as [[r ds']|]; reflexivity.
+Qed.
+
+(* ---------- argsort_k, find_pbest_id ---------- *)
+Lemma upd_map {A B} (f : A -> B) l i x : upd (map f l) i (f x) = map f (upd l i x).
+Proof. revert i; induction l as [|h t IH]; intros [|i]; simpl; auto. now rewrite IH. Qed.
+Lemma nth_map_Zofnat l i : nth i (map Z.of_nat l) 0 = Z.of_nat (nth i l O).
+Proof. change 0 with (Z.of_nat 0). apply map_nth. Qed.
+
+Lemma find_max_inner (a : list Q) : forall (n j : nat) mx (mid : nat),
+  snd (for_nat_p n (Z.of_nat j)
+         (fun j0 '(max_, max_id) => if Qltb max_ (getQ a j0) then (getQ a j0, j0) else (max_, max_id))
+         (mx, Z.of_nat mid))
+  = Z.of_nat (find_max_from a j n mx mid).
+Proof.
+  induction n as [|n IH]; intros j mx mid; [reflexivity|].
+  cbn [for_nat_p find_max_from]. rewrite getQ_nat.
+  replace (Z.of_nat j + 1) with (Z.of_nat (Datatypes.S j)) by lia.
+  destruct (Qltb mx (nth j a 0%Q)); apply IH.
+Qed.
+
+Definition argsort_step (n : nat) (i0 : Z) (array_copy : list Q) (to_return : list Z) : list Q * list Z :=
+       let max_ := getQ array_copy i0 in
+       let max_id := i0 in
+       let '(max_, max_id) := for_range_p i0 (Z.of_nat n) (max_, max_id)
+           (fun j '(max_, max_id) =>
+              let '(max_, max_id) := if Qltb max_ (getQ array_copy j) then (getQ array_copy j, j) else (max_, max_id) in
+              (max_, max_id)) in
+       let v_1 := getQ array_copy max_id in
+       let v_2 := getQ array_copy i0 in
+       let array_copy := setA array_copy i0 v_1 in
+       let array_copy := setA array_copy max_id v_2 in
+       let v_3 := getZ to_return max_id in
+       let v_4 := getZ to_return i0 in
+       let to_return := setA to_return i0 v_3 in
+       let to_return := setA to_return max_id v_4 in
+       (array_copy, to_return).
+
+Lemma argsort_step_eq (ac : list Q) (idx : list nat) (i : nat) :
+  argsort_step (length ac) (Z.of_nat i) ac (map Z.of_nat idx)
+  = (swap 0%Q ac i (find_max_from ac i (length ac - i) (nth i ac 0%Q) i),
+     map Z.of_nat (swap O idx i (find_max_from ac i (length ac - i) (nth i ac 0%Q) i))).
+Proof.
+  unfold argsort_step. cbv zeta. unfold for_range_p.
+  replace (Z.to_nat (Z.of_nat (length ac) - Z.of_nat i)) with (length ac - i)%nat by lia.
+  pose proof (find_max_inner ac (length ac - i) i (getQ ac (Z.of_nat i)) i) as Hin.
+  match goal with |- context [for_nat_p (length ac - i) (Z.of_nat i) ?b ?s] =>
+    assert (Hb : for_nat_p (length ac - i) (Z.of_nat i) b s
+               = for_nat_p (length ac - i) (Z.of_nat i)
+                   (fun j0 '(max_, max_id) => if Qltb max_ (getQ ac j0) then (getQ ac j0, j0) else (max_, max_id))
+                   (getQ ac (Z.of_nat i), Z.of_nat i))
+  end.
+  { rewrite !for_nat_p_fold. apply fold_left_ext. intros [m mi] b. destruct (Qltb m (getQ ac (Z.of_nat i + Z.of_nat b))); reflexivity. }
+  rewrite Hb. clear Hb.
+  destruct (for_nat_p (length ac - i) (Z.of_nat i)
+              (fun j0 '(max_, max_id) => if Qltb max_ (getQ ac j0) then (getQ ac j0, j0) else (max_, max_id))
+              (getQ ac (Z.of_nat i), Z.of_nat i)) as [mx' mid'] eqn:E.
+  cbn [snd] in Hin. subst mid'. rewrite getQ_nat in *.
+  set (mid := find_max_from ac i (length ac - i) (nth i ac 0%Q) i).
+  rewrite !getQ_nat, !getZ_nat, !setA_nat, !nth_map_Zofnat, !upd_map. reflexivity.
+Qed.
+
+Lemma argsort_outer (n : nat) (body : Z -> list Q * list Z -> list Q * list Z) :
+  (forall i0 ac tr, body i0 (ac, tr) = argsort_step n i0 ac tr) ->
+  forall (k i : nat) (ac : list Q) (idx : list nat), length ac = n ->
+  snd (for_nat_p k (Z.of_nat i) body (ac, map Z.of_nat idx)) = map Z.of_nat (argsort_k_loop k i ac idx).
+Proof.
+  intro Hb. induction k as [|k IH]; intros i ac idx Hlen; [reflexivity|].
+  cbn [for_nat_p argsort_k_loop]. rewrite Hb. subst n. rewrite argsort_step_eq.
+  replace (Z.of_nat i + 1) with (Z.of_nat (Datatypes.S i)) by lia.
+  apply IH. unfold swap. now rewrite !upd_length.
+Qed.
+
+Theorem code_argsort_k a (k : nat) : py_argsort_k a (Z.of_nat k) = map Z.of_nat (argsort_k a k).
+Proof.
+  unfold py_argsort_k, argsort_k. cbv zeta. unfold for_range_p at 1.
+  rewrite Z.sub_0_r, Nat2Z.id.
+  assert (Har : arange (zlen a) = map Z.of_nat (seq 0 (length a))).
+  { unfold arange, zlen. now rewrite Nat2Z.id. }
+  rewrite Har. unfold zlen.
+  match goal with |- (let '(_, to_return) := for_nat_p k 0 ?b ?s in to_return) = _ =>
+    change (snd (for_nat_p k (Z.of_nat 0) b s) = map Z.of_nat (argsort_k_loop k 0 a (seq 0 (length a)))) end.
+  apply (argsort_outer (length a)); [|reflexivity].
+  intros i0 ac tr. reflexivity.
+Qed.
+
+Lemma pbest_count_eq q : Z.max 1 (Qtrunc q) = Z.of_nat (Nat.max 1 (Z.to_nat (Qfloor' q))).
+Proof.
+  unfold Qtrunc, Qfloor'. destruct q as [num den]. cbn [Qnum Qden].
+  destruct (Z_lt_le_dec num 0) as [Hneg|Hpos].
+  - assert (Z.quot num (Z.pos den) <= 0) by (apply Z.quot_le_upper_bound; lia).
+    assert (num / Z.pos den < 0) by (apply Z.div_lt_upper_bound; lia).
+    lia.
+  - rewrite Z.quot_div_nonneg by lia.
+    assert (0 <= num / Z.pos den) by (apply Z.div_pos; lia). lia.
+Qed.
+
+Theorem code_find_pbest_id a p : py_find_pbest_id a p = map Z.of_nat (find_pbest_id a p).
+Proof.
+  unfold py_find_pbest_id, find_pbest_id, pbest_count. cbv zeta.
+  unfold ZtoQ, zlen. rewrite pbest_count_eq.
+  set (c := Nat.max 1 (Z.to_nat (Qfloor' (p * inject_Z (Z.of_nat (length a)))))).
+  rewrite code_argsort_k. unfold sliceTo. rewrite pyidx_nat. apply firstn_map.
+Qed.
